@@ -81,6 +81,24 @@ Theorem exec_matches_spec : forall evs B, 0 <= B -> Forall nonneg (costs_of evs)
             (threshold c <= B -> fuel_levels t = spec_levels c B).
 Proof. exact exec_matches_spec_proof. Qed.
 
+(* One State, many evaluations (render_captured, then call_macro / render_block ... on its state):
+   after any history of evaluations - failed ones included - the levels still add up to the budget. *)
+Theorem history_levels_add_up : forall B ops, 0 <= B -> Forall (Forall nonneg) ops ->
+  let t := run_ops (new B) ops in
+  fst (fuel_levels t) + snd (fuel_levels t) = B /\ 0 <= fst (fuel_levels t) /\ 0 <= snd (fuel_levels t).
+Proof. intros B ops HB Hn. exact (levels_add_up_proof B _ HB (run_ops_reachable B ops (new B) Hn (reach_new B))). Qed.
+
+(* Once the tank is empty it stays empty: every further evaluation that charges anything fails, one
+   that charges nothing succeeds, and the tracker - hence the reported levels (budget, 0) - does not move. *)
+Theorem exhausted_pinned : forall costs t pre t' ok, remaining t = 0 -> Forall nonneg costs ->
+  watch track t costs = (pre, t', ok) -> t' = t /\ ok = (total costs =? 0).
+Proof. exact exhausted_pinned_proof. Qed.
+
+(* Consumption never decreases along a history: remaining only goes down, the budget is kept. *)
+Theorem remaining_monotone : forall costs t pre t' ok, 0 <= remaining t -> Forall nonneg costs ->
+  watch track t costs = (pre, t', ok) -> initial t' = initial t /\ 0 <= remaining t' <= remaining t.
+Proof. exact remaining_decreases. Qed.
+
 (* The real cost function (the table generated from vm/fuel.rs::fuel_for_instruction): for every
    executed trace of real opcodes, the tracker over the trace's costs succeeds exactly for the
    budgets at or above threshold(sum of the table over the trace) and then reports (c, B - c). *)
@@ -118,5 +136,8 @@ Print Assumptions render_states_reachable.
 Print Assumptions fuel_deterministic.
 Print Assumptions fuel_accumulates.
 Print Assumptions exec_matches_spec.
+Print Assumptions history_levels_add_up.
+Print Assumptions exhausted_pinned.
+Print Assumptions remaining_monotone.
 Print Assumptions trace_threshold.
 Print Assumptions trace_costs_defined.
